@@ -59,6 +59,9 @@ func Main(args []string) {
 		if b, err := os.ReadFile(*replay); err == nil && json.Unmarshal(b, &f) == nil && f.Replay.Model == "c05retry" {
 			os.Exit(ReplayRetry(f.Oracle, f.Sig, f.Replay.Case))
 		}
+		if b, err := os.ReadFile(*replay); err == nil && json.Unmarshal(b, &f) == nil && f.Replay.Model == "c05threads" {
+			os.Exit(replayThreads(*replay))
+		}
 		os.Exit(syncrun.Replay(*replay))
 	}
 	tier := evidence.Tier()
@@ -155,6 +158,16 @@ func Main(args []string) {
 			exhaustive = false
 		}
 	}
+	if *only == "" || *only == "threads" {
+		tc, herr := exploreThreads(rep)
+		harnessErr = harnessErr || herr
+		if tc != nil {
+			cov["thread_schedules"] = tc
+			if ex, ok := tc["exhaustive"].(bool); ok && !ex {
+				exhaustive = false
+			}
+		}
+	}
 	cov["traces_validated_against_impl"] = cov["transitions"]
 	cov["exhaustive"] = exhaustive
 	cov["rule"] = rule
@@ -168,7 +181,7 @@ func Main(args []string) {
 		"'seen' is what the statement lists: commits the replica wrote, read successfully, fetched-and-merged, or that were in its local refs when its clocks were rebuilt; fetched but unmerged commits are not seen",
 		"deleting clock files is an action of the environment: values are compared across it only with the maximum stored in the local entities",
 		"the in-memory flavour builds the fetched remote state with a second set of clocks over the same mockRepo object store (mockRepo has no transport)",
-		"crash-torn clock files are C06, concurrent increments are C18")
+		"crash-torn clock files are C06; concurrent use of a whole cache is C18; the clock of one repository handle under 2-3 threads (first use, increment, witness) is explored here with the scheduler of C18 (coverage.thread_schedules), in a second build of the harness that ./check provides")
 	ev := evidence.Evidence{PropertyID: "C05", Tier: tier, Seed: int(seed), Level: "model_checking", Coverage: cov,
 		Assumptions: assumptions, WallS: time.Since(start).Seconds(), Violations: rep.Viol, Known: rep.KnownSeen()}
 	if err := ev.Write(); err != nil {
